@@ -2,6 +2,7 @@ package types
 
 import (
 	"fmt"
+	"math"
 )
 
 const (
@@ -68,6 +69,11 @@ func (p Params) Validate() error {
 		if err := validateUint64(f.name, f.isPositiveOnly)(f.val); err != nil {
 			return err
 		}
+	}
+
+	// an attempt expires at block height + signing period, kept as uint64: the sum must not wrap around
+	if p.SigningPeriod > math.MaxInt64 {
+		return fmt.Errorf("signing period must not exceed %d: %d", int64(math.MaxInt64), p.SigningPeriod)
 	}
 
 	return nil
